@@ -114,12 +114,16 @@ def constKeyEq (a b : Const) : Bool :=
   | .bool x, .int y => (if x then 1 else 0) == y
   | a, b => a == b
 
+/-- the value expression of the LAST entry whose key equals `k` (a later entry overrides an earlier one) -/
+def dictLookupLast (k : Const) : List Expr → List Expr → Option Expr
+  | .const c :: ks, v :: vs =>
+    match dictLookupLast k ks vs with
+    | some r => some r
+    | Option.none => if constKeyEq c k then some v else Option.none
+  | _, _ => Option.none
+
 def dictLookup (keys vals : List Expr) (k : Const) : Option Expr :=
-  if allConstKeys keys then
-    (keys.zip vals).findSome? (fun p => match p.1 with
-      | .const c => if constKeyEq c k then some p.2 else Option.none
-      | _ => Option.none)
-  else Option.none
+  if allConstKeys keys then dictLookupLast k keys vals else Option.none
 
 /-! ### simplify_chained_calls -/
 
